@@ -3,6 +3,8 @@
 //	server record <tcp|pc|udp> <out.ndjson> <nruns>   un-gated seeded scenarios, events logged for Trace_Server
 //	server replay <tcp|pc> <plans.ndjson> <out.ndjson>  TLC behaviours forced onto the real server through the gates
 //	server reuse <nruns>                              one Server value reused across transports (real sockets, ListenAndServe)
+//	server patience <tcp|pc|udp> <out.ndjson> <configured|defaults> <nruns>
+//	                                                  handlers held across a plain Shutdown() for longer than every timeout
 //
 // The restart-during-shutdown schedules are ordinary plans (TLC counter-examples of MC_Server_restart);
 // the driver replays each in its own process with a time-out.
@@ -36,6 +38,12 @@ func main() {
 		}
 		n, _ := strconv.Atoi(os.Args[2])
 		reuse(n)
+	case "patience":
+		if len(os.Args) < 6 {
+			hx.Die("usage: server patience <tcp|pc|udp> <out.ndjson> <configured|defaults> <nruns>")
+		}
+		n, _ := strconv.Atoi(os.Args[5])
+		patience(os.Args[2], os.Args[3], os.Args[4], n)
 	case "replay":
 		if len(os.Args) < 5 {
 			hx.Die("usage: server replay <tcp|pc> <plans.ndjson> <out.ndjson>")
